@@ -10,7 +10,7 @@ from vf.core import Result
 
 ID = "C05"
 LEVEL = "exploration"
-BUDGET = {"quick": 14400, "thorough": 144000}
+BUDGET = {"quick": 36000, "thorough": 360000}
 RULE = (
     "Hypothesis draws a system spec (10 system classes x 14 constant-metric types x 5 position-dependent "
     "metric families x 1-3 linear/quadric/ridge constraints x both density conventions x every return "
